@@ -39,24 +39,30 @@ suite = log("suite.with.log")
 m = re.search(r"^Ok:\s+(\d+)", suite, re.M)
 fails = re.search(r"^Fail:\s+(\d+)", suite, re.M)
 # run checks against /repo with the patch applied
-subprocess.check_call(["git", "-C", "/repo", "diff", "--quiet"])          # /repo must be clean
-subprocess.check_call(["git", "-C", "/repo", "apply", os.path.join(D, "patch.diff")])
+# run the checks against a private worktree of /repo HEAD with the patch applied (never touches /repo's working tree)
+import tempfile
+WT = tempfile.mkdtemp(prefix="orcfile.", dir="/var/tmp")
+subprocess.check_call(["git", "-C", "/repo", "worktree", "add", "-q", "--detach", WT + "/r", "HEAD"])
+subprocess.check_call(["git", "-C", WT + "/r", "apply", os.path.join(D, "patch.diff")])
+os.environ["ORC_REPO"] = WT + "/r"
+EVD = WT + "/ev"
 results = {}
 try:
     if allchecks:
-        out = subprocess.run(["/verif/bin/runall"], capture_output=True, text=True, env=dict(os.environ, VERIF_EVIDENCE_DIR="/var/tmp/seed/ev")).stdout
+        out = subprocess.run(["/verif/bin/runall"], capture_output=True, text=True, env=dict(os.environ, VERIF_EVIDENCE_DIR=EVD)).stdout
         for ln in out.splitlines():
             mm = re.match(r"^(C\d\d) rc=(\d+)", ln)
             if mm:
                 results[mm.group(1)] = int(mm.group(2))
         viol = [l for l in out.splitlines() if l.startswith("VIOLATION") or l.startswith("ANALYSIS")]
     else:
-        r = subprocess.run(["/verif/bin/check", pid], capture_output=True, text=True, env=dict(os.environ, VERIF_EVIDENCE_DIR="/var/tmp/seed/ev"))
+        r = subprocess.run(["/verif/bin/check", pid], capture_output=True, text=True, env=dict(os.environ, VERIF_EVIDENCE_DIR=EVD))
         results[pid] = r.returncode
         out = r.stdout + r.stderr
         viol = [l for l in out.splitlines() if l.startswith("VIOLATION") or l.startswith("ANALYSIS")]
 finally:
-    subprocess.check_call(["git", "-C", "/repo", "checkout", "--", "."])
+    subprocess.call(["git", "-C", "/repo", "worktree", "remove", "--force", WT + "/r"])
+    shutil.rmtree(WT, ignore_errors=True)
 open(os.path.join(D, "check_output.txt"), "w").write(out)
 meta = {
     "property": pid,
